@@ -209,14 +209,6 @@ theorem vConstruct_spec (c names kw) {g : R (List (String × PyVal))} {a n}
   rw [Bool.and_true] at this
   exact Sp.guardT _ this
 
-theorem countAdmits_zero_of_not_any (O : Oracles) :
-    ∀ (fs : List FieldDecl) (v : PyVal), admitsAny O fs v = false → countAdmits O fs v = 0
-  | [], _, _ => by simp only [countAdmits]
-  | f :: fs, v, h => by
-    simp only [admitsAny, Bool.or_eq_false_iff] at h
-    simp only [countAdmits, h.1, Bool.false_eq_true, if_false, Nat.zero_add]
-    exact countAdmits_zero_of_not_any O fs v h.2
-
 mutual
 theorem validate_spec (O : Oracles) : ∀ (f : FieldDecl) (v : PyVal), Spec O f v
   | .number o, v => by simp only [Spec, admits, norm, validate]; exact vNumber_spec o v
@@ -265,28 +257,12 @@ theorem validate_spec (O : Oracles) : ∀ (f : FieldDecl) (v : PyVal), Spec O f 
       exact vInline_spec (fun kw => vConstruct_spec c _ kw (validateFields_spec O c defaults kw fields)) v
   | .anyOf fs, v => by simp only [Spec, admits, norm, validate]; exact validateAny_spec O fs v
   | .oneOf fs, v => by
-    simp only [Spec, admits, norm, validate, countOk_eq O fs v]
-    cases hc : (countAdmits O fs v == 1)
-    · simp only [Bool.false_eq_true, if_false]; exact Sp.valueErr _
-    · simp only [if_true]
-      have ha : admitsAny O fs v = true := by
-        cases h0 : admitsAny O fs v
-        · rw [countAdmits_zero_of_not_any O fs v h0] at hc; cases hc
-        · rfl
-      have := validateAny_spec O fs v
-      rw [ha] at this
-      exact this
+    simp only [Spec, admits, norm, validate, countOk_eq O fs v]; exact Sp.ite _ _
   | .allOf fs, v => by
     simp only [Spec, admits, norm, validate]
-    have he := validateEach_spec O fs v
-    cases ha : admitsAll O fs v
-    · rw [ha] at he
-      rcases he.2 rfl with ⟨e, hr, hc⟩
-      rw [hr]
-      exact ⟨fun h0 => (nomatch h0), fun _ => ⟨e, rfl, hc⟩⟩
-    · rw [ha] at he
-      rw [he.1 rfl, bindE_ok, validateFirst_ok O fs v ha]
-      exact Sp.pure _
+    have := Sp.bind (k := fun _ => (Except.ok v : R PyVal)) (validateEach_spec O fs v) (Sp.pure _)
+    rw [Bool.and_true] at this
+    exact this
   | .notF fs, v => by
     simp only [Spec, admits, norm, validate, countOk_eq O fs v]; exact Sp.ite _ _
   | .noneF, v => by simp only [Spec, admits, norm, validate]; exact vNone_spec v
@@ -327,15 +303,6 @@ theorem countOk_eq (O : Oracles) :
     · rcases h.2 ha with ⟨e, he, _⟩
       simp [he]
     · simp [h.1 ha]
-
-/-- given that every option admits, `AllOf` stores the first option's normal form -/
-theorem validateFirst_ok (O : Oracles) :
-    ∀ (fs : List FieldDecl) (v : PyVal), admitsAll O fs v = true → validateFirst O fs v = .ok (normFirst O fs v)
-  | [], v, _ => by simp only [normFirst, validateFirst]
-  | f :: fs, v, h => by
-    simp only [admitsAll, Bool.and_eq_true] at h
-    simp only [normFirst, validateFirst]
-    exact (validate_spec O f v).1 h.1
 
 theorem validateEach_spec (O : Oracles) :
     ∀ (fs : List FieldDecl) (v : PyVal), Sp (admitsAll O fs v) () (validateEach O fs v)
